@@ -134,11 +134,13 @@ theorem imports_ok (g : GCtx) :
         rw [hs] at this
         simp only [names, List.map_map]
         exact List.mem_map.2 ⟨x, this, rfl⟩
-      show (names.foldl _ _).typeMap.lookup x = _
+      show d.typeMap.lookup x = _
+      simp only [d]
       rw [lookup_foldl_bind (fun y => Ty.named ("typing." ++ y)), if_pos hm]
     · intro k hk _
       left
-      show (names.foldl _ _).typeMap.lookup k = _
+      show d.typeMap.lookup k = _
+      simp only [d]
       rw [lookup_foldl_bind (fun y => Ty.named ("typing." ++ y))]
       have : ¬ k ∈ names.map Prod.fst := by
         intro hm
@@ -151,10 +153,11 @@ theorem imports_ok (g : GCtx) :
       rw [if_neg this]
       rfl
     · intro k _
-      show (names.foldl _ _).aliases.lookup k = none
-      rw [(foldl_bind_other _ _ _).1]
+      show d.aliases.lookup k = none
+      simp only [d]
+      rw [(foldl_bind_other (fun y => Ty.named ("typing." ++ y)) names {}).1]
       rfl
-    · exact (foldl_bind_other _ _ _).2
-    · exact (foldl_bind_other _ _ _).1
+    · exact (foldl_bind_other (fun y => Ty.named ("typing." ++ y)) names {}).2
+    · exact (foldl_bind_other (fun y => Ty.named ("typing." ++ y)) names {}).1
 
 end PytypeModel.Pytd
